@@ -649,6 +649,9 @@ func checkC13(P *Program, r *Result, tier string) {
 				}
 			case *ssa.Alloc:
 				isZeroStore := func(in ssa.Instruction) bool {
+					if in == ssa.Instruction(x) {
+						return true // executing the declaration again yields a new, zeroed variable
+					}
 					st, ok := in.(*ssa.Store)
 					if !ok || st.Addr != ssa.Value(x) {
 						return false
